@@ -121,6 +121,7 @@ class World:
         self.held = {}
         self.results = []          # ready AsyncResults B has not collected (in the order they became ready)
         self.kept = set()          # seqs of B's requests whose result B keeps
+        self.waiting = []          # B's outstanding AsyncResults for those requests, oldest first: [seq, res, expired?]
         self.back_log = []         # identity checks recorded by A's recv
         self.closed = False
         self.err = []              # real-only observations that contradict the property
@@ -201,6 +202,7 @@ class World:
                 res = self.cb.async_request(c.HANDLE_CALL, self.give_p, (to_tuple(o[1]),), ())
                 res.add_callback(self.results.append)
                 self.kept.add(self._seq_of(self.cb, res))
+                self.waiting.append([self._seq_of(self.cb, res), res, False])
                 return "ok"
             if kind == "back":
                 if self.closed:
@@ -212,6 +214,7 @@ class World:
                 if echo:
                     res.add_callback(self.results.append)
                     self.kept.add(self._seq_of(self.cb, res))
+                    self.waiting.append([self._seq_of(self.cb, res), res, False])
                 return "ok"
             if kind == "drop":
                 if self.closed:
@@ -228,10 +231,25 @@ class World:
                 res = self.results.pop(0)
                 self._hold(res.value)
                 return "ok"
+            if kind == "expire":
+                # the requester's AsyncResult expires before its reply is delivered (what `timed`, a `timeout=` or a sync
+                # request's timeout amount to); the late reply will be dispatched and its value thrown away
+                if self.closed:
+                    return "closed"
+                j = o[1]
+                if j >= len(self.waiting) or self.waiting[j][2]:
+                    return "disabled"
+                self.waiting[j][1].set_expiry(0)
+                self.waiting[j][2] = True
+                if not self.waiting[j][1].expired:
+                    self.err.append("set_expiry(0) did not expire the result")
+                return "ok"
             if kind in ("dO", "dP"):
                 conn = self.cb if kind == "dO" else self.ca
                 mark = len(self.net.frames)
                 served = conn.poll()
+                if kind == "dO":
+                    self.waiting = [w for w in self.waiting if w[0] in self.cb._request_callbacks]
                 if not served:
                     return "empty"
                 for who, data in self.net.frames[mark:]:
@@ -260,6 +278,7 @@ class World:
                         pass
                 self.held.clear()
                 del self.results[:]
+                del self.waiting[:]
                 self.closed = True
                 if not (first.closed and second.closed):
                     self.err.append("after close: closed flags are %r / %r" % (first.closed, second.closed))
@@ -369,9 +388,9 @@ class World:
             o = q = []
         else:
             o, q = self.queue_text("B"), self.queue_text("A")
-        return "%s t=%s p=%s h=%s r=%d o=[%s] q=[%s]%s" % (
+        return "%s t=%s p=%s h=%s r=%d w=%s o=[%s] q=[%s]%s" % (
             outcome, ",".join(t), ",".join(p), ",".join(str(k) for k in sorted(self.held)), len(self.results),
-            ";".join(o), ";".join(q), " closed" if self.closed else "")
+            "".join("x" if w[2] else "o" for w in self.waiting), ";".join(o), ";".join(q), " closed" if self.closed else "")
 
     # -- the statement's own observations (used by the oracle and, as extra checks, by the correspondence)
     def reachable_ids(self):
@@ -474,6 +493,8 @@ def op_text(o):
         return "back %d %s" % (o[1], "T" if o[2] else "F")
     if kind == "drop":
         return "drop %d" % o[1]
+    if kind == "expire":
+        return "expire %d" % o[1]
     if kind == "close":
         return "close"
     return kind
@@ -503,9 +524,15 @@ def random_op(r, w, n):
                 return ["drop", r.choice(sorted(w.held))]
             if r.chance(1, 10):
                 return ["drop", a]
-        elif x < 66:
+        elif x < 64:
             if w.results or r.chance(1, 10):
                 return ["collect"]
+        elif x < 69:
+            fresh = [j for j, e in enumerate(w.waiting) if not e[2]]
+            if fresh:
+                return ["expire", r.choice(fresh)]
+            if r.chance(1, 6):
+                return ["expire", len(w.waiting)]
         elif x < 83:
             if w.inbox("B") or r.chance(1, 12):
                 return ["dO"]
@@ -624,6 +651,8 @@ def enabled_ops(w, n, alphabet):
             continue
         if kind == "collect" and not w.results:
             continue
+        if kind == "expire" and (len(w.waiting) <= o[1] or w.waiting[o[1]][2]):
+            continue
         if kind == "dO" and not w.inbox("B"):
             continue
         if kind == "dP" and not w.inbox("A"):
@@ -660,9 +689,9 @@ def exhaustive(n, depth, alphabet, emit, deadline):
 
 
 ALPHABET_1 = [["send", [0]], ["send", [0, [0]]], ["fetch", 0], ["back", 0, False], ["back", 0, True], ["drop", 0],
-              ["collect"], ["dO"], ["dP"]]
+              ["collect"], ["expire", 0], ["dO"], ["dP"]]
 ALPHABET_2 = [["send", [0]], ["send", [1, [0, 1]]], ["fetch", [1]], ["back", 0, True], ["back", 1, False],
-              ["drop", 0], ["drop", 1], ["collect"], ["dO"], ["dP"]]
+              ["drop", 0], ["drop", 1], ["collect"], ["expire", 0], ["dO"], ["dP"]]
 
 CORPUS = [
     # the crossing race of the statement: release notice in flight while the object is sent again
@@ -678,9 +707,17 @@ CORPUS = [
     [["fetch", 1], ["dP"], ["dO"], ["send", [1]], ["dO"], ["drop", 1], ["collect"], ["drop", 1], ["dP"], ["dP"]],
     # not-enabled operations answer without touching anything
     [["drop", 0], ["collect"], ["back", 1, False], ["dO"], ["dP"], ["send", []], ["fetch", []], ["dP"], ["dO"], ["collect"]],
+    # a reply for an expired result: unboxed, thrown away, its proxies die at once (nested, twice the same object)
+    [["fetch", [0, [1, 0]]], ["dP"], ["expire", 0], ["dO"], ["dP"], ["dP"], ["dO"], ["dO"]],
+    # expired while the reply is not even produced yet; a second, unexpired result behind it; a proxy held elsewhere
+    [["send", [0]], ["dO"], ["fetch", 0], ["fetch", [2, 0]], ["expire", 0], ["expire", 0], ["expire", 3], ["dP"], ["dP"], ["dP"],
+     ["dO"], ["dO"], ["collect"], ["drop", 0], ["dP"], ["dP"], ["drop", 0], ["drop", 2], ["dP"], ["dP"]],
+    # an echoed hand-back whose result expired; the proxy is also inside a ready result
+    [["fetch", 1], ["dP"], ["dO"], ["collect"], ["back", 1, True], ["fetch", [1]], ["expire", 0], ["dP"], ["dP"], ["dO"], ["dO"],
+     ["drop", 1], ["collect"], ["expire", 0]],
     # close with references, releases and results in flight, then operations on the closed pair
     [["send", [0, 1]], ["dO"], ["fetch", 2], ["dP"], ["drop", 0], ["send", [0]], ["close", "B"], ["send", [1]], ["dO"], ["dP"],
-     ["drop", 1], ["collect"], ["back", 1, True], ["fetch", 0], ["close", "A"]],
+     ["drop", 1], ["collect"], ["back", 1, True], ["fetch", 0], ["expire", 0], ["close", "A"]],
 ]
 
 
@@ -707,7 +744,7 @@ def correspondence(ctx):
               "corpus (the crossing race both ways, multi-box, hand-back dropped in flight, result as only holder, "
               "disabled ops, close with traffic in flight), ALL histories of enabled ops up to a depth over a 1-object "
               "and a 2-object alphabet, and seeded random histories (length 8..40, shapes: alone, several, nested tuples, "
-              "mixed with plain values, empty); each followed by the closing phase (use every held proxy, drop all, "
+              "mixed with plain values, empty; AsyncResults expiring before their reply is delivered); each followed by the closing phase (use every held proxy, drop all, "
               "deliver all, close from either side). Compared after EVERY op: outcome, owner table counts, proxy counts, "
               "held set, ready results, decoded contents of both queues. Non-trivial = a proxy existed at some point; "
               "distinct = distinct canonical output of the whole history.")
@@ -961,7 +998,7 @@ def oracle_history(ops, n=N_OBJS, close_side="A", kinds=None):
         # a request the peer made through a live proxy must never be answered with an exception
         for o, s in zip(done, snaps):
             out = s.split(" ", 1)[0]
-            if out not in ("ok", "empty", "not-held", "closed"):
+            if out not in ("ok", "empty", "not-held", "closed", "disabled"):
                 errs.append("op %s was answered with %s" % (op_text(o), out))
         return "; ".join(errs) if errs else None
     finally:
